@@ -574,6 +574,9 @@ struct AllocThread : ThreadBase {
     TCK(st.reserved_size() >= st.used_size() && st.reserved_size() >= st.block_count() * 2 * size_t(env->B0), "stat-reserved-size", "concurrent statistics(): reserved_size() %zu used_size() %zu blocks %zu", st.reserved_size(), st.used_size(), st.block_count());
     TCK(st.block_count() >= (live.empty() ? 0u : 1u) && st.block_count() <= cap, "stat-block-count", "concurrent statistics(): block_count() %zu with %zu live spans in this thread", st.block_count(), live.size());
     TCK((st.block_count() == 0) == (st.overhead_size() == 0), "stat-overhead", "concurrent statistics(): %zu blocks, overhead_size() %zu", st.block_count(), st.overhead_size());
+    // accessors documented as thread-safe
+    TCK(A->granularity() == env->G && A->block_size() == env->B0 && A->fill_pattern() == env->pattern && A->has_option(JitAllocatorOptions::kUseMultiplePools) == env->multi,
+        "create-params", "accessors changed while threads run: granularity %u block_size %u", A->granularity(), A->block_size());
     cls("statistics");
   }
 
@@ -1309,7 +1312,7 @@ static GenKey decode_gen(const vh::Op& op) {
   GenKey k;
   k.emitter = int(u(arg(op, 2)) % E_COUNT);
   k.seed = u(arg(op, 3));
-  k.len = int(std::min<uint64_t>(400, std::max<int64_t>(1, arg(op, 4) < 0 ? -arg(op, 4) : arg(op, 4))));
+  k.len = int(std::min<int64_t>(400, std::max<int64_t>(1, arg(op, 4))));
   k.flags = unsigned(u(arg(op, 5)) & 7);
   return k;
 }
